@@ -157,9 +157,9 @@ pub struct FrequencySketch {
 }
 //@@ END
 
-//@@ STATIC file=src/common/frequency_sketch.rs name=SEED ensures=SEED@ == SEEDS
-//@@ STATIC file=src/common/frequency_sketch.rs name=RESET_MASK ensures=RESET_MASK == 0x7777_7777_7777_7777u64
-//@@ STATIC file=src/common/frequency_sketch.rs name=ONE_MASK ensures=ONE_MASK == 0x1111_1111_1111_1111u64
+//@@ STATIC file=src/common/frequency_sketch.rs name=SEED tags=C14,C08 ensures=SEED@ == SEEDS
+//@@ STATIC file=src/common/frequency_sketch.rs name=RESET_MASK tags=C14 ensures=RESET_MASK == 0x7777_7777_7777_7777u64
+//@@ STATIC file=src/common/frequency_sketch.rs name=ONE_MASK tags=C14,C08 ensures=ONE_MASK == 0x1111_1111_1111_1111u64
 
 broadcast use {lemma_and_le, lemma_start, lemma_read, lemma_shl2, lemma_off, lemma_nib_inc, lemma_halve, lemma_onemask};
 
@@ -351,6 +351,13 @@ impl FrequencySketch {
 //@@ END
 
 }
+}
+// vacuity guard: with every broadcast axiom of this unit in scope `false` must NOT be provable
+pub mod canary {
+use vstd::prelude::*;
+use crate::bv::*;
+broadcast use {lemma_and_le, lemma_start, lemma_read, lemma_shl2, lemma_off, lemma_nib_inc, lemma_halve, lemma_onemask, lemma_shr1, lemma_nib_le};
+pub proof fn verif_canary_sketch() ensures false {}
 }
 }
 }
